@@ -89,6 +89,48 @@ class LevelAnalysis:
         self.stats_field = self._field_of_type("PriceLevelStatistics")
         self.price_field = self._price_field()
         self._cache = {}
+        self.root = SELF
+
+    def for_root(self, root):
+        """the same analysis seen from another PriceLevel value the walked function acts on (a parameter
+        `other: &PriceLevel`): counter / queue / statistics events are those whose receiver is a field of `root`.
+        Paths and mutator discovery are shared; root-dependent summaries are keyed by the root."""
+        if root == self.root:
+            return self
+        import copy
+        v = copy.copy(self)
+        v.root = root
+        return v
+
+    def views(self, name):
+        """[(view, key suffix)]: the level the function is called on, then every other PriceLevel value it acts on"""
+        out = [(self, "")]
+        if self.root == SELF:
+            for root in self.other_level_roots(name):
+                out.append((self.for_root(root), "@other-level(%s)" % short(root)))
+        return out
+
+    def other_level_roots(self, name):
+        """roots (other than self) of PriceLevel values whose counters / queue / statistics the function `name` touches"""
+        key = ("roots", name)
+        if key in self._cache:
+            return self._cache[key]
+        b, res, _ = self.paths(name)
+        fields = set(self.counter_role) | {self.queue_field, self.stats_field}
+        roots = []
+        for r in res:
+            for e in r.trace:
+                if e[0] != "eff" or not e[2]:
+                    continue
+                if e[1].split(".", 1)[0] not in ("Q", "ATOMIC", "STAT", "MAP", "TICKET") or e[1] in ("ATOMIC.load", "ATOMIC.new"):
+                    continue
+                ref = e[2][0]
+                if isinstance(ref, tuple) and ref[0] == "ref":
+                    _, root, path = ref[1]
+                    if root != SELF and root[0] == "obj" and path and path[0][0] == "f" and path[0][2] in fields and root not in roots:
+                        roots.append(root)
+        self._cache[key] = roots
+        return roots
 
     # ---- slots filled from the repository
     def _accessor_field(self, name):
@@ -122,12 +164,12 @@ class LevelAnalysis:
             return t[3]
         raise AnchorError("PriceLevel::price does not return a field of self")
 
-    @staticmethod
-    def self_field(ref):
-        """field name when `ref` is &self.<field> (possibly through Arc deref), else None"""
+    def self_field(self, ref):
+        """field name when `ref` is &self.<field> (possibly through Arc deref), else None; `self` is the level this view
+        follows (the receiver of the walked function unless for_root() chose another one)"""
         if isinstance(ref, tuple) and ref[0] == "ref":
             _, root, path = ref[1]
-            if root == SELF and len(path) >= 1 and path[0][0] == "f":
+            if root == getattr(self, "root", SELF) and len(path) >= 1 and path[0][0] == "f":
                 return path[0][2]
         return None
 
@@ -234,7 +276,7 @@ class LevelAnalysis:
         out = []
         for e in trace:
             if e[0] == "eff" and e[1].startswith("Q."):
-                if self.self_field(e[2][0]) != self.queue_field:
+                if not e[2] or self.self_field(e[2][0]) != self.queue_field:
                     continue
                 m = e[1][2:]
                 res = e[3]
@@ -289,21 +331,24 @@ class LevelAnalysis:
                 if len(a) == 2 and self.is_order_term(a[1], facts) and container_local(a[0]) is not None:
                     # parked only if the function drains that container again (set_aside); a container that is never
                     # drained is a result being collected (`cancelled.push(order)`): the order leaves the book
-                    if self.container_drained(e[4][-1][0], container_local(a[0])[1]):
+                    if self.container_drained(e[4][-1][0], container_local(a[0])[1]) and self.container_requeued(e[4][-1][0], container_local(a[0])[1]):
                         out.append(("park", a[1], e))
                     else:
                         out.append(("handout", a[1], e))
             elif e[0] == "call" and e[1] in ("std::vec::Vec::pop", "std::collections::VecDeque::pop_front", "std::collections::VecDeque::pop_back"):
                 # draining a parked container with `while let Some(o) = set_aside.pop()`
                 res = e[3]
-                if facts.variant.get(res) == "Some" and e[2] and container_local(e[2][0]) is not None:
+                if facts.variant.get(res) == "Some" and e[2] and container_local(e[2][0]) is not None and len(e[4]) == 1 \
+                        and self.container_requeued(e[4][-1][0], container_local(e[2][0])[1]):
                     out.append(("unpark", ("field", res, "Some", "0"), e))
             elif e[0] == "call" and e[1].endswith("::next") and "Iterator" in e[1]:
                 # draining a parked container: `for o in set_aside { .. }`
                 res = e[3]
                 if facts.variant.get(res) == "Some":
                     src = self.iter_source(trace, e)
-                    if src is not None:
+                    # only the walked function's own containers: a vector handed by value to a callee that iterates it
+                    # (`OrderQueue::from(removed)`) has left this function's hands
+                    if src is not None and len(e[4]) == 1 and self.container_requeued(e[4][-1][0], src[1]):
                         out.append(("unpark", ("field", res, "Some", "0"), e))
         return out
 
@@ -371,6 +416,58 @@ class LevelAnalysis:
                 for a in t["args"] or []:
                     if a.get("k") in ("copy", "move") and not [x for x in a["place"]["p"] if x["k"] != "deref"] and a["place"]["l"] in alias:
                         res = True
+        self._cache[key] = res
+        return res
+
+    def container_requeued(self, defp, local):
+        """are the orders read back out of the local container pushed onto *this* level's queue again (match_order's
+        set_aside), or do they go elsewhere (`drain_into(other)`: handed to another level, i.e. they leave this book)?
+        Decided on the paths of `defp`: some path takes an element out of the container and pushes that element on
+        self's queue.  Unknown / no read-back seen: the conservative reading (parked, still counted)."""
+        key = ("requeued", defp, local, self.root)
+        if key in self._cache:
+            return self._cache[key]
+        self._cache[key] = True         # while computing (paths() does not use queue events) and as the default
+        if defp not in self.db.bodies:
+            return True
+        try:
+            b, paths, _ = self.paths(defp)
+        except Exception:
+            return True
+        found = seen = False
+        pops = ("std::vec::Vec::pop", "std::collections::VecDeque::pop_front", "std::collections::VecDeque::pop_back")
+        # the container holds orders of *this* level only if something taken from this level's queue is put into it
+        from_here = False
+        any_park = False
+        for r in paths:
+            taken = [e[3] for e in r.trace if e[0] == "eff" and e[1] in ("Q.pop", "Q.remove") and e[2] and self.self_field(e[2][0]) == self.queue_field]
+            for e in r.trace:
+                if e[0] == "call" and e[1] in ("std::vec::Vec::push", "alloc::vec::Vec::push", "std::collections::VecDeque::push_back") \
+                        and len(e[2]) == 2 and container_local(e[2][0]) == (0, local):
+                    any_park = True
+                    if any(x == t for t in taken for x in subterms(e[2][1])):
+                        from_here = True
+        if any_park and not from_here:
+            self._cache[key] = False
+            return False
+        for r in paths:
+            for i, e in enumerate(r.trace):
+                if e[0] != "call" or r.facts.variant.get(e[3]) != "Some":
+                    continue
+                un = False
+                if e[1] in pops and e[2] and container_local(e[2][0]) == (0, local):
+                    un = True
+                elif e[1].endswith("::next") and "Iterator" in e[1] and self.iter_source(r.trace, e) == ("local", local):
+                    un = True
+                if not un:
+                    continue
+                seen = True
+                elem = ("field", e[3], "Some", "0")
+                for e2 in r.trace[i + 1:]:
+                    if e2[0] == "eff" and e2[1] == "Q.push" and e2[2] and self.self_field(e2[2][0]) == self.queue_field \
+                            and any(x == elem for x in subterms(e2[2][1])):
+                        found = True
+        res = found or not seen
         self._cache[key] = res
         return res
 
@@ -450,7 +547,7 @@ def seq_view(L, r):
     for e in r.trace:
         if e[0] != "eff" or not e[1].startswith("Q."):
             continue
-        if L.self_field(e[2][0]) != L.queue_field:
+        if not e[2] or L.self_field(e[2][0]) != L.queue_field:
             continue
         m = e[1][2:]
         if m == "find":
